@@ -813,6 +813,8 @@ func Run(r *monitor.Run) {
 	wrap.Add(1)
 	go func() { defer wrap.Done(); wrapAround(r) }()
 	defer wrap.Wait()
+	retainedAcrossSessions(r)
+	replayAtTheSizeLimit(r)
 	n := r.Pick(160, 3000)
 	rng := r.Rand("scripts")
 	scs := make([]Scenario, n)
